@@ -14,9 +14,9 @@ Transcribed from /repo:
 Abstractions: a Go slice is a `List (Option α)` (`none` = zero value of a cleared / never written slot);
 `time.Time` is `Int` (Unix nanoseconds) and the zero `time.Time{}` is `none`; a message is reduced to its
 time, an identity, its kind and its name (all the union node looks at). The queue used by the union node
-is abstract (`QueueLike`): the model is run – and the theorems are stated – for the instance `WCQ`, the
-circular queue above restricted to the states satisfying its invariant (every reachable state does:
-`Kap.Props.C12.cq_inv_*`).  The `for emitted { … }` loop is a fuel-bounded recursion; `union_fuel_enough`
+is abstract (`QueueLike`): the model is run – and the theorems are stated – for the instance `WCQ`
+(Kap/Proofs/C12CQ.lean), the circular queue above restricted to the states satisfying `CQ.Good` (every
+reachable state does: `Kap.Props.C12.cq_refines_list`).  The `for emitted { … }` loop is a fuel-bounded recursion; `union_fuel_enough`
 shows that the fuel handed over by `UState.emitReadyAll` is never exhausted.
 -/
 namespace Kap.C12
@@ -33,7 +33,7 @@ deriving Repr, DecidableEq
 namespace CQ
 variable {α : Type}
 
-def cap (q : CQ α) : Nat := q.data.length
+abbrev cap (q : CQ α) : Nat := q.data.length
 
 /-- `NewCircularQueue(buf...)` for a variadic argument list (`cap(buf) = len(buf)`). -/
 def new (buf : List α) : CQ α :=
@@ -85,7 +85,7 @@ def peek (q : CQ α) (i : Int) : Option (Option α) :=
 def toList (q : CQ α) : List α :=
   (List.range q.len).filterMap (fun i => (q.data[q.phys i]?).join)
 
-/-- The invariant of every reachable queue. -/
+/-- The index invariant of every reachable queue. -/
 structure Inv (q : CQ α) : Prop where
   cap_pos : 0 < q.cap
   head_le : q.head ≤ q.cap
@@ -93,7 +93,13 @@ structure Inv (q : CQ α) : Prop where
   len_le : q.len ≤ q.cap
   empty : q.len = 0 → q.head = 0 ∧ q.tail = 0
   tail_eq : 0 < q.len → 0 < q.tail ∧ (q.tail = q.head + q.len ∨ q.tail + q.cap = q.head + q.len)
-  live : ∀ i, i < q.len → ∃ v, q.data[q.phys i]? = some (some v)
+
+/-- The queue holds exactly the elements of `l`, in order: slot `phys i` holds `l[i]`. -/
+def Rel (q : CQ α) (l : List α) : Prop :=
+  l.length = q.len ∧ ∀ i (h : i < l.length), q.data[q.phys i]? = some (some l[i])
+
+/-- Reachable states: indexes consistent and every live slot filled. -/
+def Good (q : CQ α) : Prop := q.Inv ∧ q.Rel q.toList
 
 end CQ
 
@@ -106,14 +112,6 @@ class QueueLike (Q : Type) (α : outParam Type) where
   toList : Q → List α
   enq : Q → α → Q
   deq : Q → Nat → Q
-
-/-- The raw circular queue as a `QueueLike` (used only until a state is known to satisfy `CQ.Inv`). -/
-instance rawCQ {α : Type} : QueueLike (CQ α) α where
-  empty := CQ.new []
-  len q := q.len
-  toList q := q.toList
-  enq q v := q.enqueue v
-  deq q n := q.dequeue n
 
 /-! ## UnionNode -/
 
